@@ -346,6 +346,42 @@ func execC02CLI(t *testing.T, p *C02Plan, cols, pk []string, rows [][]string, re
 		res.Violate("unchanged-logged", "reflog of heads/main grew from %d to %d entries although nothing changed", l1, l2)
 		return
 	}
+	// a real edit made within the second of that run (mtime half a second after it): it is a change, and the commit
+	// that follows must carry it - the cached temporary commit of the previous run is stale
+	if len(rows) > 0 && len(cols) > 0 {
+		edited := make([][]string, len(rows))
+		for i := range rows {
+			edited[i] = append([]string(nil), rows[i]...)
+		}
+		j := len(cols) - 1
+		if len(edited[0][j]) < 60000 {
+			edited[0][j] += "~"
+		}
+		if len(DedupeByKey(cols, pk, edited)) == len(rows) && len(NormaliseCSV(cols, edited)) == len(rows) {
+			os.WriteFile(file, CSVText(cols, permuteRows(edited, p.B.Perm), ','), 0644)
+			at := bubbleEpoch.Add(49*time.Hour + 500*time.Millisecond)
+			os.Chtimes(file, at, at)
+			n.Clock = 49*time.Hour + time.Second
+			r3 := n.Run(t, "commit", "main", "third", "-n", fmt.Sprint(p.B.Cfg.Workers))
+			if bubbleProblems(res, r3.Out, "wrgl commit (3)") {
+				return
+			}
+			if r3.Err != nil {
+				res.Violate("commit-error", "third commit failed: %v %s", r3.Err, r3.Stdout)
+				return
+			}
+			refs3, _ := n.Refs()
+			if strings.Contains(r3.Stdout, "hasn't changed") || bytes.Equal(refs3["heads/main"], refs2["heads/main"]) {
+				res.Violate("change-not-detected", "a cell was edited half a second after the previous run (file mtime %v) and the branch file committed again one second after it: reported as unchanged: %q", at.UTC(), r3.Stdout)
+				return
+			}
+			if c1, c3 := rawCommit(n.Objs, refs1["heads/main"]), rawCommit(n.Objs, refs3["heads/main"]); c1 == nil || c3 == nil || bytes.Equal(c1.Table, c3.Table) {
+				res.Violate("identity-collides", "the table committed after a cell edit has the identifier of the table before it")
+				return
+			}
+			res.probe("edit_within_the_second_of_the_cached_commit", 1)
+		}
+	}
 	res.Nontrivial = len(rows) >= 3
 }
 
